@@ -334,6 +334,71 @@ def lin_part(ctx, rng):
     return per
 
 
+# ---- TraceTLS (C09): corrupted admission observations
+
+def tls_part(ctx, rng):
+    mc = ctx.tlc("MC_C09", "MC_C09.cfg", name="MC_C09", workers=4, timeout=600)
+    scen = [json.loads(x) for x in mc.scenarios if json.loads(x)["pos"] == "between"]
+    sp = os.path.join(ctx.work, "bindtls_scen.jsonl")
+    vlib.write_jsonl(sp, scen)
+    trace = os.path.join(ctx.work, "bindtls.ndjson")
+    ctx.harness(["tlsgate", "--scenarios", sp, "--out", trace], timeout=3000)
+    accepted, scs, lines = ctx.validate(trace, "TraceTLS", stateful=True, constants="CONSTANT Diagnose = FALSE\n")
+    base = [sc for sc in scs if sc in accepted]
+    if len(base) < len(scs):
+        raise vlib.Inconclusive("%d of %d TLS scenarios are rejected: run C09 first" % (len(scs) - len(base), len(scs)))
+
+    def mut(evs, pred, change):
+        c = [i for i, e in enumerate(evs) if pred(e)]
+        if not c:
+            return None
+        i = rng.choice(c)
+        out = list(evs)
+        out[i] = change(dict(evs[i]))
+        return out
+    muts = {
+        "tls:outsider_served": lambda evs: mut(evs, lambda e: e["ev"] == "tlsclient" and not e["served"], lambda e: dict(e, hs=True, calls=1, served=True, disconnected=False)),
+        "tls:outsider_executes": lambda evs: mut(evs, lambda e: e["ev"] == "tlsclient" and e["calls"] == 0, lambda e: dict(e, calls=1)),
+        "tls:legitimate_refused": lambda evs: mut(evs, lambda e: e["ev"] == "tlsclient" and e["served"], lambda e: dict(e, served=False)),
+        "tls:outsider_kept": lambda evs: mut(evs, lambda e: e["ev"] == "tlsclient" and not e["served"] and e["fault"] != "stall" and e["disconnected"], lambda e: dict(e, disconnected=False)),
+        "tls:tls_listener_down": lambda evs: mut(evs, lambda e: e["ev"] == "probe" and e["tlsok"], lambda e: dict(e, tlsok=False)),
+        "tls:plain_listener_down": lambda evs: mut(evs, lambda e: e["ev"] == "probe" and e["plainok"], lambda e: dict(e, plainok=False)),
+    }
+    out = os.path.join(ctx.work, "bindtls_mut.ndjson")
+    made = {}
+    nid = 0
+    with open(out, "w") as f:
+        for name, m in sorted(muts.items()):
+            cands = list(base)
+            rng.shuffle(cands)
+            n = 0
+            for sc in cands:
+                if n >= 60:
+                    break
+                mu = m(events(lines[sc]))
+                if mu is None:
+                    continue
+                nid += 1
+                n += 1
+                made[nid] = (name, sc)
+                for e in mu:
+                    f.write(json.dumps(dict(e, sc=nid), separators=(",", ":")) + "\n")
+    acc2, scs2, lines2 = ctx.validate(out, "TraceTLS", stateful=True, constants="CONSTANT Diagnose = FALSE\n")
+    per = {}
+    for k, (name, sc) in made.items():
+        t = per.setdefault(name, [0, 0])
+        t[0] += 1
+        if k in acc2:
+            t[1] += 1
+            if t[1] <= 2:
+                ctx.violation("corrupted TLS trace ACCEPTED by TraceTLS (%s applied to scenario %d)" % (name, sc),
+                              {"mutation": name, "trace": [json.loads(x) for x in lines2[k]][:60]})
+    for name in muts:
+        if name not in per:
+            raise vlib.Inconclusive("mutation %s was never applicable (vacuous self-test)" % name)
+    return per
+
+
 def run(ctx):
     ctx.build()
     pipes = ctx.tlc("MC_C03", "MC_C03_quick.cfg", name="MC_C03", workers=vlib.NCPU, timeout=1800)
@@ -380,6 +445,7 @@ def run(ctx):
     sper, nscripts = server_part(ctx, rng)
     per.update(sper)
     per.update(lin_part(ctx, rng))
+    per.update(tls_part(ctx, rng))
     for name, (n, a) in sorted(per.items()):
         print("BIND %-22s corrupted=%4d accepted=%d" % (name, n, a))
         if n == 0:
